@@ -176,5 +176,16 @@ claim(
     TB + "; CPython's dataclasses + inspect.signature on a class compiled from the definition text is the reference; the abstract class model "
     "mirrors what the visitor stores (labels, annotation paths, field() call arguments)",
 )
+claim(
+    "C17",
+    "sibling agreement between the two agents: registry exhaustiveness (ObjectKind vs inspect_* handlers), finite-domain abstract evaluation "
+    "of the kind decision list and of generic_inspect's alias decision, typestate of the extension-event protocol on the inspector's CFG, "
+    "kind-map bijection, docstring-source rule, and the static parameter alignment against CPython's introspection",
+    "Decided on every path / abstract state of the inspector: each runtime kind has a handler; specific kinds win over the general ones they "
+    "imply; objects are announced with the visitor's protocol and properties become attributes on both sides; imported objects become aliases "
+    "except a same-named direct sub-module; parameters convert through a bijective kind map; docstrings are the object's own; and the static "
+    "side lists parameters exactly as inspect.signature does. Actual outputs on importable modules are not compared.",
+    TB,
+)
 for _p in [f"C{n:02d}" for n in range(1, 20) if f"C{n:02d}" not in CLAIMED]:
     NOT_YET[_p] = "check under construction in this round (static rules designed in DESIGN.md section 3; not yet registered)"
